@@ -190,6 +190,24 @@ func c08Values() []extVal {
 			return &tls.QUICTransportParametersExtension{TransportParameters: tls.TransportParameters{tls.MaxIdleTimeout(30000), tls.InitialMaxData(1 << 20), &tls.GREASEQUICBit{}}}
 		}),
 	}
+	// bodies whose nested length prefixes sit on both sides of a carry into the high byte
+	// (inner list length 252..258 and 508..514): an outer prefix is the inner one plus 2 or more
+	for _, n := range []int{248, 249, 250, 251, 252, 253, 254, 504, 505, 506, 507, 508, 509, 510} {
+		n := n
+		vals = append(vals,
+			E(fmt.Sprintf("keyshare:one-share-%dB", n), "keyshare", func() tls.TLSExtension {
+				return &tls.KeyShareExtension{KeyShares: []tls.KeyShare{{Group: tls.CurveID(0x6a6a), Data: rep(0x47, n)}}}
+			}),
+			E(fmt.Sprintf("generic:%dB", n), "none", func() tls.TLSExtension { return &tls.GenericExtension{Id: 0xff00, Data: rep(0xab, n)} }))
+		if n < 256 {
+			vals = append(vals,
+				E(fmt.Sprintf("sni:%dB", n), "sni", func() tls.TLSExtension { return &tls.SNIExtension{ServerName: strings.Repeat("a", n)} }),
+				E(fmt.Sprintf("alpn:one-protocol-%dB", n), "exact", func() tls.TLSExtension { return &tls.ALPNExtension{AlpnProtocols: []string{strings.Repeat("p", n)}} }),
+				E(fmt.Sprintf("fake_psk:label-%dB", n), "exact", func() tls.TLSExtension {
+					return &tls.FakePreSharedKeyExtension{Identities: []tls.PskIdentity{{Label: rep(0x11, n), ObfuscatedTicketAge: 7}}, Binders: [][]byte{rep(0x22, 32)}}
+				}))
+		}
+	}
 	return vals
 }
 
